@@ -48,12 +48,12 @@ func main() {
 	}
 	thorough := run.Thorough()
 
-	cfg := tierCfg{fullLen: 300, kFull: 2, fullLen2: 300, radius: 8, maxCand: 420, singlesAll: 8192,
-		splitAllLen: 300, wsSplitAll: 0, splitRadius: 8, oneByteLimit: 1200, wsSinglesAll: 400}
+	cfg := tierCfg{fullLen: 300, kFull: 2, fullLen2: 300, radius: 8, maxCand: 300, singlesAll: 8192,
+		splitAllLen: 300, wsSplitAll: 0, splitRadius: 5, oneByteLimit: 1200, wsSinglesAll: 400, wsPairRadius: 6, wsSplitRadius: 4}
 	seqMax := 2
 	if thorough {
-		cfg = tierCfg{fullLen: 400, kFull: 3, fullLen2: 1200, radius: 12, maxCand: 700, singlesAll: 8192,
-			splitAllLen: 600, wsSplitAll: 200, splitRadius: 10, oneByteLimit: 4000, wsSinglesAll: 3000}
+		cfg = tierCfg{fullLen: 400, kFull: 3, fullLen2: 1200, radius: 12, maxCand: 600, singlesAll: 8192,
+			splitAllLen: 600, wsSplitAll: 120, splitRadius: 8, oneByteLimit: 4000, wsSinglesAll: 3000, wsPairRadius: 10, wsSplitRadius: 6}
 		seqMax = 3
 	}
 
@@ -193,27 +193,31 @@ func main() {
 				jobs = append(jobs, rtJob{seq: seq, carrier: car, part: p, parts: parts})
 			}
 		}
-		// write groupings for the tunnels
+		// write groupings for the tunnels: all elements in one write; every split into two writes
 		for _, car := range []string{carHTTP, carWSc2s, carWSs2c} {
 			if len(seq) > 1 {
 				jobs = append(jobs, rtJob{seq: seq, carrier: car, writeEnds: []int{n}, mode: 1, parts: 1})
 			}
 			var pos []int
-			all := cfg.splitAllLen
-			r := 2
-			if car != carHTTP {
-				all = cfg.wsSplitAll
-				r = 1
-			}
-			if n <= all {
+			switch {
+			case car == carHTTP && n <= cfg.splitAllLen:
 				pos = allPositions(1, n)
-			} else {
-				pos = uniqSorted(rawInteresting(raw, ends, r), 1, n-1)
+			case car != carHTTP && n <= cfg.wsSplitAll:
+				pos = allPositions(1, n)
+			case car != carHTTP && len(seq) > 1 && !thorough:
+				// quick, websocket, sequences: splits next to the element boundaries
+				var b []int
+				for _, e := range ends {
+					b = around(b, e, 2)
+				}
+				pos = uniqSorted(b, 1, n-1)
+			default:
+				pos = uniqSorted(rawInteresting(raw, ends, 2), 1, n-1)
 				if len(pos) > 90 {
 					var b []int
-					b = around(b, 0, r+1)
+					b = around(b, 0, 3)
 					for _, e := range ends {
-						b = around(b, e, r+1)
+						b = around(b, e, 3)
 					}
 					pos = uniqSorted(b, 1, n-1)
 				}
